@@ -4,6 +4,8 @@ E1: BFS over histories of finalize / unlock enter / unlock exit (ok, raising) / 
 clear / hook registration / parses that plant an unbound macro, an unknown-reference placeholder or a
 %gin.REQUIRED, against a LockModel run in lock-step.
 """
+import threading
+
 from vf import bfs
 from vf import core
 from vf import harness
@@ -39,7 +41,7 @@ OPS = ['finalize', 'unlock_enter', 'unlock_exit_ok', 'unlock_exit_raise', 'bind_
        'register_class_with_method', 'hook_y7', 'hook_y8_other_spelling', 'hook_z', 'hook_invalid', 'hook_raises', 'hook_none', 'hook_empty',
        'parse_unbound_macro', 'parse_placeholder', 'parse_required', 'bind_tuple_x', 'parse_block_z',
        'define_macro', 'parse_macro_y_evaluated', 'parse_macro_z_unevaluated', 'parse_macro_y_short_ref',
-       'finalize_in_scope', 'parse_macro_z_dictkey']
+       'finalize_in_scope', 'parse_macro_z_dictkey', 'bind_x_in_other_thread', 'parse_scoped_y']
 UNIVERSE = ['c12.f.x', 'c12.f.y', 'c12.f.z']
 
 
@@ -208,7 +210,7 @@ class World:
             res.violation('unlock_swallows_exception', 'unlock_config swallowed the body exception; %r' % (hist,), hist)
       elif op in ('bind_x', 'bind_tuple_x', 'parse_y', 'parse_block_z', 'parse_unbound_macro', 'parse_placeholder',
                   'parse_required', 'define_macro', 'parse_macro_y_evaluated', 'parse_macro_z_unevaluated',
-                  'parse_macro_y_short_ref', 'parse_macro_z_dictkey'):
+                  'parse_macro_y_short_ref', 'parse_macro_z_dictkey', 'bind_x_in_other_thread', 'parse_scoped_y'):
         mutator = True
         if self.locked:
           exp_out = 'RuntimeError'
@@ -218,6 +220,28 @@ class World:
             self.config['c12.f.x'] = repr(1)
             self.bad.clear()
           gin.bind_parameter('c12.f.x', 1)
+        elif op == 'bind_x_in_other_thread':
+          # the lock is a property of the configuration, not of the thread that finalized it
+          if not self.locked:
+            self.config['c12.f.x'] = repr(1)
+            self.bad.clear()
+          box = []
+
+          def worker():
+            try:
+              gin.bind_parameter('c12.f.x', 1)
+            except BaseException as e:  # pylint: disable=broad-except
+              box.append(e)
+          t = threading.Thread(target=worker)
+          t.start()
+          t.join()
+          if box:
+            raise box[0]
+        elif op == 'parse_scoped_y':
+          # a binding of the same configurable under another scope says nothing about the unscoped entry
+          if not self.locked:
+            pass
+          gin.parse_config('c12scope2/c12.f.y = 33')
         elif op == 'bind_tuple_x':
           if not self.locked:
             self.config['c12.f.x'] = repr(2)
